@@ -101,9 +101,19 @@ type FullB struct {
 	K int       `json:"k" validate:"oneof=1 2 3"`
 }
 
+type FullC struct {
+	UserName string      `json:"userName" validate:"required,min=3"`
+	APIKey   string      `json:"apiKey" validate:"omitempty,len=12"`
+	Owner    *FullInner  `json:"Owner" validate:"required"`
+	Rows     [][]string  `json:"rows" validate:"omitempty,dive,dive,min=2"`
+	Kids     []FullInner `json:"kidsList" validate:"max=1,dive"`
+	Plain    string      `validate:"omitempty,max=2"`
+}
+
 var namedTypes = map[string]reflect.Type{
 	"FullA": reflect.TypeOf(FullA{}),
 	"FullB": reflect.TypeOf(FullB{}),
+	"FullC": reflect.TypeOf(FullC{}),
 }
 
 // describe builds the TypeT of a compiled type (full mode).
@@ -112,6 +122,9 @@ func describe(t reflect.Type) *TypeT {
 	for i := 0; i < t.NumField(); i++ {
 		f := t.Field(i)
 		name, _, _ := strings.Cut(f.Tag.Get("json"), ",")
+		if name == "" {
+			name = f.Name
+		}
 		ft := FieldT{JSON: name, Tag: f.Tag.Get("validate")}
 		switch {
 		case f.Type.Kind() == reflect.String:
@@ -130,6 +143,8 @@ func describe(t reflect.Type) *TypeT {
 			ft.Kind, ft.Sub = "sstruct", describe(f.Type.Elem())
 		case f.Type.Kind() == reflect.Slice && f.Type.Elem().Kind() == reflect.String:
 			ft.Kind = "sstring"
+		case f.Type.Kind() == reflect.Slice && f.Type.Elem().Kind() == reflect.Slice:
+			ft.Kind = "ssstring"
 		case f.Type.Kind() == reflect.Slice && f.Type.Elem().Kind() == reflect.Int:
 			ft.Kind = "sint"
 		case f.Type.Kind() == reflect.Map:
@@ -417,9 +432,14 @@ func genCase(r *hx.Rand, tier string) caseT {
 	switch r.Intn(10) {
 	case 0, 1: // full mode on a compiled named type
 		c.Mode = 1
-		c.Named = hx.Pick(r, []string{"FullA", "FullB"})
+		c.Named = hx.Pick(r, []string{"FullA", "FullB", "FullC"})
 		t := describe(namedTypes[c.Named])
 		b, _ := json.Marshal(genObject(r, t, 0))
+		c.Body = string(b)
+	case 2: // full mode on a generated (anonymous) struct type
+		c.Mode = 1
+		c.T = genType(r, 0)
+		b, _ := json.Marshal(genObject(r, c.T, 0))
 		c.Body = string(b)
 	default:
 		c.T = genType(r, 0)
@@ -620,10 +640,12 @@ func ruleFor(root reflect.Value, path string) ruleT {
 	return rt
 }
 
-// fullErrs runs the validator on the whole struct and maps every error to (json path, tag):
-// the StructNamespace is walked through the type, json names joined with "." and an index
-// rendered as the validator renders it in Namespace ("items[0]").
-func fullErrs(ptr any) (out [][2]string, ok bool) {
+// fullErrs runs the validator on the whole struct and maps every error to (json path, path as
+// shipped, tag). The JSON path is computed here, independently of the code under test, by walking
+// the StructNamespace (Go field names, "Items[0].Name") through the type: json names joined with
+// ".", an index as a segment of its own ("items.0.name"). The path as shipped (before the repair of
+// K05e) is the lower-cased Namespace without the top struct name ("items[0].name").
+func fullErrs(ptr any, t reflect.Type) (out [][3]string, ok bool) {
 	err := ownValidator.Struct(ptr)
 	if err == nil {
 		return nil, true
@@ -634,12 +656,48 @@ func fullErrs(ptr any) (out [][2]string, ok bool) {
 	}
 	for _, e := range verrs {
 		ns := e.Namespace()
-		if i := strings.Index(ns, "."); i >= 0 {
+		sns := e.StructNamespace()
+		if i := strings.Index(sns, "."); i >= 0 {
 			ns = ns[i+1:]
 		}
-		out = append(out, [2]string{ns, e.Tag()})
+		if t.Name() != "" {
+			sns = strings.TrimPrefix(sns, t.Name()+".")
+		}
+		out = append(out, [3]string{jsonPathOf(sns, t), strings.ToLower(ns), e.Tag()})
 	}
 	return out, true
+}
+
+// jsonPathOf walks "Items[0].Name" through the struct type.
+func jsonPathOf(sns string, t reflect.Type) string {
+	var segs []string
+	cur := t
+	for _, part := range strings.Split(sns, ".") {
+		name, idx, _ := strings.Cut(part, "[")
+		for cur.Kind() == reflect.Pointer {
+			cur = cur.Elem()
+		}
+		f, found := cur.FieldByName(name)
+		if !found {
+			panic("jsonPathOf: no field " + name + " in " + cur.String())
+		}
+		jn, _, _ := strings.Cut(f.Tag.Get("json"), ",")
+		if jn == "" {
+			jn = f.Name
+		}
+		segs = append(segs, jn)
+		cur = f.Type
+		for idx != "" {
+			var one string
+			one, idx, _ = strings.Cut(idx, "[")
+			segs = append(segs, strings.TrimSuffix(one, "]"))
+			for cur.Kind() == reflect.Pointer {
+				cur = cur.Elem()
+			}
+			cur = cur.Elem()
+		}
+	}
+	return strings.Join(segs, ".")
 }
 
 // ---------------------------------------------------------------- observation
@@ -907,10 +965,10 @@ func emit(id string, c caseT, st *hx.Stats) string {
 			contPanic = true
 		}
 	}
-	var full [][2]string
+	var full [][3]string
 	if c.Mode == 1 {
 		var ok bool
-		full, ok = fullErrs(ptr.Interface())
+		full, ok = fullErrs(ptr.Interface(), rt)
 		if !ok {
 			return "# skipped " + id + ": validator.Struct returned a non-validation error"
 		}
@@ -921,7 +979,7 @@ func emit(id string, c caseT, st *hx.Stats) string {
 	if rd != nil {
 		cand := append([]string(nil), paths...)
 		for _, f := range full {
-			cand = append(cand, f[0])
+			cand = append(cand, f[0], f[1])
 		}
 		sort.Strings(cand)
 		for _, p := range uniq(cand) {
@@ -933,7 +991,7 @@ func emit(id string, c caseT, st *hx.Stats) string {
 	l.Tok("O").Nat(c.Mode).Nat(c.MaxErrors).Nat(c.MaxFields).Strs(red).Bool(single)
 	l.Tok("F").Nat(len(full))
 	for _, f := range full {
-		l.Str(f[0]).Str(f[1])
+		l.Str(f[0]).Str(f[1]).Str(f[2])
 	}
 	in := l.String()
 
